@@ -136,7 +136,7 @@ def run(ck):
     ck.mc("BoolOp", "BoolOp.mc.cfg", timeout=600)      # f_or, one action per micro-operation
     ck.mc("BoolOp", "BoolOp.mc2.cfg", timeout=600)     # f_and, repeated inputs, f_nocancel, output cancel
     if not quick:
-        for c in ("BoolOp.mc3.cfg", "BoolOp.mc4.cfg", "BoolOp.mc5.cfg"):
+        for c in ("BoolOp.mc3.cfg", "BoolOp.mc4.cfg", "BoolOp.mc5.cfg", "BoolOp.mc6.cfg"):
             ck.mc("BoolOp", c, timeout=1500)
     # 2. spec -> code: coarse-grained TLC behaviours replayed in the real f_or / f_and
     for cfg, op in (("BoolOp.sim.cfg", "or"), ("BoolOp.sim2.cfg", "and")):
